@@ -65,6 +65,7 @@ def variants():
     V["modes"] = dict(modes=(4, 4))
     V["measx"] = dict(meas_pt=(30.0, 30.0))
     V["measy"] = dict(meas_pt=(20.0, 45.0))
+    V["meas-near"] = dict(meas_pt=(20.3, 30.2))  # 30 cm from the base request's tower: equal when printed with few digits
     V["bg"] = dict(srf_bg_conc=3.0)
     # backgrounds in trace-gas units: they differ from each other and from the base request only beyond the sixth decimal
     V["bg-trace-a"] = dict(srf_bg_conc=4.0e-7)
@@ -534,6 +535,8 @@ def run(ctx):
     fresh = [{"hist": [n_, n_], "pattern": "fresh-interpreter"} for n_ in NAMES if n_ != "dispersion"][:: (3 if ctx.tier == "quick" else 1)] + [{"hist": ["R0", "measx"], "pattern": "fresh-interpreter"}]
     cases = cases + fresh
     res = ctx.run_cases(case_history, cases, sub="histories")
+    from vf import callerenv
+    callerenv.run(ctx, case_history, [{"hist": ["R0", "meas-near", "R0"], "pattern": "one-object"}, {"hist": ["meas-near", "bg", "R0", "meas-near"], "pattern": "new-object"}])
     res += ctx.run_cases(case_history, dmg, sub="histories with entries damaged on disk")
     cases = cases + dmg
     cw = [{"requests": list(p_), "bound": 2} for p_ in (("R0", "measx"), ("measx", "measy"), ("R0", "srcshape"), ("levels-order", "levels-subset"), ("R0", "R0"), ("single-row", "R0"))]
